@@ -10,9 +10,10 @@ import (
 	"math/big"
 
 	"github.com/bytom/bytom/math/checked"
+	. "verifharness/hlib"
 )
 
-func init() { props["C31"] = runC31 }
+func main() { Main("C31", runC31, nil) }
 
 type c31fn struct {
 	name  string
@@ -219,11 +220,11 @@ func runC31(c *Ctx) error {
 				if (ia*7+ib*13)%mod == 0 || bad != "" {
 					var model string
 					if f.arity == 1 {
-						model = fmt.Sprintf("%s %s", f.name, coqZ(a))
+						model = fmt.Sprintf("%s %s", f.name, CoqZ(a))
 					} else {
-						model = fmt.Sprintf("%s %s %s", f.name, coqZ(a), coqZ(b))
+						model = fmt.Sprintf("%s %s %s", f.name, CoqZ(a), CoqZ(b))
 					}
-					id := c.Cases.Add(model, fmt.Sprintf("Some (%s, %s)", coqZ(got), coqBool(ok)))
+					id := c.Cases.Add(model, fmt.Sprintf("Some (%s, %s)", CoqZ(got), CoqBool(ok)))
 					c.Stats.CaseIndex[fmt.Sprint(id)] = desc
 					c.Stats.Count("model_evaluated")
 				}
